@@ -198,6 +198,8 @@ func runContracts(eng *Engine, prop, fnFilter, work string, timeout time.Duratio
 				switch {
 				case o.Kind == "guarded" || o.Kind == "lock" || o.Kind == "lock-atomic" || o.Kind == "lock-balance" || o.Kind == "monitor":
 				case o.Cover && strings.HasSuffix(o.Name, "#cover:requires"):
+				case !o.Cover && (o.Kind == "precondition" || o.Kind == "invariant-entry" || o.Kind == "invariant-preserved" || o.Kind == "ensures" || o.Kind == "atcall") && mentionsLocks(o.Desc):
+					// clauses that carry the lock state across calls and loops (held/unheld/nolocks ...)
 				default:
 					continue
 				}
@@ -399,4 +401,14 @@ func printRun(run *Run, verbose bool) {
 		}
 	}
 	fmt.Printf("SUMMARY obligations=%d discharged=%d failed=%d undecided=%d wall=%.1fs\n", n, d, run.Failed, run.Undecided, run.WallSecs)
+}
+
+// mentionsLocks: the clause talks about the ghost lock state.
+func mentionsLocks(desc string) bool {
+	for _, k := range []string{"held(", "nolocks()", "anylock()", "dirty()"} {
+		if strings.Contains(desc, k) {
+			return true
+		}
+	}
+	return false
 }
